@@ -162,6 +162,10 @@ P("empty_else_chain", "f", """
 int f(int a, int b) { int r = a; if (a > 0) { if (b > 0) { } } else { if (b < 0) { } else { } r = b; } return r; }
 """)
 
+P("sub_from_zero", "f", """
+int f(int a, int b) { int z = 0; return (0 - a) + (z - b) * 3 + (b - 0) + (0 + a); }
+""")
+
 # --- programs used by C02/C03 only (external functions that read/modify memory; pointers to locals handed to
 # externals): other checks iterate over PROGS and model externals differently ----------------------------
 PROGS_EXT = {}
